@@ -58,7 +58,7 @@ func subnormalOvershoot(r *Run, prop string) {
 		} else {
 			opts.PopSize, opts.CompatThreshold = 4, 6
 		}
-		in := &epochInput{Prop: prop, Seed: 7 + int64(k), Opts: opts, Start: genomeText(startGenomes()[1]), Epochs: 2, FitRule: 7}
+		in := &epochInput{Prop: prop, Seed: 7 + int64(k), Opts: opts, Start: genomeText(readPlain(xorStart, 1)), Epochs: 2, FitRule: 7}
 		if prop == "C09" {
 			runPhased(r, in)
 		} else {
@@ -81,7 +81,7 @@ func fitnessOverflow(r *Run, prop string) {
 		} else {
 			opts.PopSize, opts.CompatThreshold, opts.AgeSignificance = 4, 1e9, 1.1
 		}
-		in := &epochInput{Prop: prop, Seed: 11 + int64(k), Opts: opts, Start: genomeText(startGenomes()[1]), Epochs: 2, FitRule: 8}
+		in := &epochInput{Prop: prop, Seed: 11 + int64(k), Opts: opts, Start: genomeText(readPlain(xorStart, 1)), Epochs: 2, FitRule: 8}
 		runHistory(r, in, nil, 0)
 	}
 }
@@ -153,9 +153,9 @@ func c10RoundingTie(r *Run) {
 	quiet()
 	opts := baseOptions()
 	opts.PopSize, opts.CompatThreshold, opts.AgeSignificance, opts.BabiesStolen = 6, 6, 1, 0
-	in := map[string]interface{}{"pop_size": 6, "seed": 42, "fitness": "[7, nextafter(7,8), 1, 2, 3, 4]", "start": "startGenomes()[0]"}
+	in := map[string]interface{}{"pop_size": 6, "seed": 42, "fitness": "[7, nextafter(7,8), 1, 2, 3, 4]", "start": "xorStart"}
 	rand.Seed(42)
-	pop, err := genetics.NewPopulation(startGenomes()[0], opts)
+	pop, err := genetics.NewPopulation(readPlain(xorStart, 1), opts)
 	if err != nil {
 		return
 	}
